@@ -27,6 +27,9 @@ func init() {
 		p.P["collide"] = r.Intn(6) // 0 = offer colliding subjects
 		p.P["distinct_tokens"] = r.Intn(3)
 		p.P["gmix"] = r.Intn(3) // 0 = everyone asks about the same group set; otherwise the same user is asked about with different sets
+		// history: how many unrelated calls complete on the same group while the calls of interest are in flight
+		p.P["churn"] = r.Pick0(0, 0, 0, 0, 0, 7, 130, 1100, 2600)
+		p.P["pre"] = r.Range(1, 12)
 		p.Choices = drawChoices(r, r.Range(10, 80))
 		return p
 	}
@@ -108,7 +111,27 @@ func runC16Group(p *Plan, res *world.Result) {
 			c.Val, c.Count, c.Err, c.Return = val, count, err, s.Step
 		})
 	}
-	s.Run(400, nil)
+	if k := p.P["churn"]; k > 0 {
+		// let the schedule run for a while, then — if an execution is in flight — a long history of unrelated calls
+		// completes on the same group (made by the driver, to completion, no scheduling involved), then the schedule goes on
+		s.Run(p.P["pre"], nil)
+		inflight := false
+		for _, e := range execs {
+			inflight = inflight || e.End < 0
+		}
+		if inflight && s.Err == "" {
+			v.cover("C16|group|history-while-in-flight|k=%d", k)
+			for i := 0; i < k; i++ {
+				key := fmt.Sprintf("churn-%d", i)
+				val, _, err := g.Do(key, func() (interface{}, error) { return key, nil })
+				if err != nil || val != key {
+					v.violate("C16.A2-joined-callers-get-the-result", fmt.Sprintf("an unmerged call on %s returned (%v, %v)", key, val, err), "scope", "group", "facet", "churn")
+					break
+				}
+			}
+		}
+	}
+	s.Run(400+p.P["pre"], nil)
 	checkGroupHistory(v, s, calls, execs, "group")
 	finish(s, res)
 	s.ReleaseAll()
